@@ -49,7 +49,7 @@ impl Property for C19 {
     fn assumptions(&self) -> Vec<String> {
         vec![
             "the ~2^-128 soundness error over the verifier's randomness is taken on faith: a wrongly accepted batch would be re-run with a second tape before being reported".into(),
-            "items are built from signatures of the library's own single signer (validated against independent verifiers in C02)".into(),
+            "items are built from signatures of the library's own single signer (validated against independent verifiers in C02) and, up to three per batch, from FROST aggregation output as returned (C01)".into(),
         ]
     }
     fn plan(&self, suite: SuiteId, tier: Tier) -> Vec<(u32, u32)> {
@@ -84,6 +84,8 @@ impl Property for C19 {
             ("size=1".into(), m / 2),
             ("size>=32".into(), m),
             ("valid-batch".into(), m),
+            ("item:frost-aggregated".into(), m),
+            ("item:frost-aggregated-R-odd".into(), 5),
             ("keys:irregular-repeats".into(), m),
             ("keys:adjacent-equal".into(), m),
             ("pattern:complementary-z".into(), m),
@@ -125,6 +127,45 @@ fn check<C: Suite>(case: &Case, ctx: &mut Ctx) -> CheckResult {
         let msg = if rng.below(3) == 0 { shared_msg.clone() } else { rng.bytes(mlen) };
         let sig = sk.sign(Tape::random(rng.next()), &msg);
         items.push(It { vk: VerifyingKey::<C>::from(sk), sig, msg });
+    }
+    // up to three items are threshold signatures exactly as FROST aggregation returns them (not re-encoded): for the
+    // Taproot suite their R is the group commitment itself, with odd Y in about half of the sessions, plain or tweaked
+    if n >= 1 && case.seed & 6 != 0 {
+        let cnt = (1 + (case.seed >> 3) % 3).min(n as u64) as usize;
+        for _ in 0..cnt {
+            let shape = Shape { n: 3, t: 2 };
+            let keys = dealer_keys::<C>(shape, IdSpec { style: IdStyle::Default, seed: 0 }, KeySource::Dealer, rng.next(), "C19")?;
+            let signers: Vec<Id<C>> = keys.ids[..2].to_vec();
+            let mlen2 = rng.below(40) as usize;
+            let msg = rng.bytes(mlen2);
+            let tweaked = C::SID.taproot() && rng.below(2) == 1;
+            let (vk, sig) = if tweaked {
+                let root = if rng.below(2) == 1 { Some(rng.bytes(32)) } else { None };
+                let (nonces, comms) = commit_all::<C>(&keys.kps, &signers, rng.next());
+                let package = frost_core::SigningPackage::new(comms, &msg);
+                let mut shares = std::collections::BTreeMap::new();
+                for id in &signers {
+                    match C::tr_sign_with_tweak(&package, &nonces[id], &keys.kps[id], root.as_deref()).unwrap() {
+                        Ok(s) => {
+                            shares.insert(*id, s);
+                        }
+                        Err(e) => return Err(inconclusive(format!("C19 item: sign_with_tweak failed: {e:?}"))),
+                    }
+                }
+                let sig = C::tr_aggregate_with_tweak(&package, &shares, &keys.pubkeys, root.as_deref()).unwrap().map_err(|e| inconclusive(format!("C19 item: aggregate_with_tweak failed: {e:?}")))?;
+                (*C::tr_tweak_pubkeys(&keys.pubkeys, root.as_deref()).verifying_key(), sig)
+            } else {
+                let sess = run_session::<C>(&keys.kps, &signers, &msg, rng.next(), "C19")?;
+                let sig = frost_core::aggregate(&sess.package, &sess.shares, &keys.pubkeys).map_err(|e| inconclusive(format!("C19 item: aggregate failed: {e:?}")))?;
+                (*keys.pubkeys.verifying_key(), sig)
+            };
+            ctx.label("item:frost-aggregated");
+            if C::SID.taproot() && y_is_odd::<C>(sig.R()) {
+                ctx.label("item:frost-aggregated-R-odd");
+            }
+            let pos = rng.below(n as u64) as usize;
+            items[pos] = It { vk, sig, msg };
+        }
     }
     let mut pattern = case.pattern % 8;
     if n == 0 {
